@@ -21,6 +21,20 @@ def enc (w : Nat) (arg obs : String) : Verdict :=
     let specObs := s!"{hexOfBytes want} len={want.length} wn={want.length}"
     { model, spec := if obs == specObs then none else some s!"expected {specObs}" }
 
+/-- ops: varint.nest <outer> <inner>, varlong.nest …: `outer.WriteTo(w)` where `w.Write` first writes `inner`
+with the same encoder into the same buffer; obs: `<bytes> wn=<n>` -/
+def nest (w : Nat) (a b obs : String) : Verdict :=
+  match parseHexNat a, parseHexNat b with
+  | some o, some i =>
+    let o := o % 2 ^ w
+    let i := i % 2 ^ w
+    let e := fun (n : Nat) => if w == 32 then varIntBytes (BitVec.ofNat 32 n) else varLongBytes (BitVec.ofNat 64 n)
+    let model := s!"{hexOfBytes (e i ++ e o)} wn={(e o).length}"
+    -- spec: the two minimal encodings one after the other, the count is the outer one's length
+    let specObs := s!"{hexOfBytes (leb i ++ leb o)} wn={(leb o).length}"
+    { model, spec := if obs == specObs then none else some s!"expected {specObs}" }
+  | _, _ => { model := "bad-arg" }
+
 def showDec (w : Nat) (r : Res (Nat × Nat)) (rest : Bytes) : String :=
   match r with
   | .ok (v, n) => s!"ok v={hexOfNat (w / 4) v} n={n} rest={hexOfBytes rest}"
@@ -66,6 +80,8 @@ def handle (op : String) (args : List String) (obs : String) : Option Verdict :=
   match op, args with
   | "varint.enc", [a] => some (enc 32 a obs)
   | "varlong.enc", [a] => some (enc 64 a obs)
+  | "varint.nest", [a, b] => some (nest 32 a b obs)
+  | "varlong.nest", [a, b] => some (nest 64 a b obs)
   | "varint.dec", [a, _] => some (dec 32 a obs)
   | "varlong.dec", [a, _] => some (dec 64 a obs)
   | _, _ => none
